@@ -3,6 +3,17 @@
 import json, sys
 pid = sys.argv[1]; wt = sys.argv[2]; n = sys.argv[3] if len(sys.argv) > 3 else "2"
 p = [json.loads(l) for l in open('/verif/properties.jsonl') if json.loads(l)['id'] == pid][0]
+import glob, os, re
+prev = []
+for d in sorted(glob.glob('/verif/seeded/%s-m*' % pid)):
+    try:
+        m = json.load(open(os.path.join(d, 'meta.json')))
+        prev.append("  - " + re.sub(r"\s+", " ", m.get("summary", ""))[:300])
+    except Exception:
+        pass
+prevtxt = ""
+if prev:
+    prevtxt = "\nOther people have already proposed the following changes for this property; yours must use DIFFERENT mechanisms and preferably different code sites and different parts of the property statement/quantifier (read the statement again: which clauses are not touched by the list below?):\n" + "\n".join(prev) + "\n"
 print(f"""You are helping to evaluate a verification tool for the Go time-series database Basekick-Labs/arc. You have your own scratch git worktree of the repository at {wt} (detached HEAD of the pinned commit). Work ONLY inside {wt} and {wt}-out (create it). Do not read or touch /verif or /repo.
 
 Here is a semantic property that arc is supposed to satisfy:
@@ -13,11 +24,13 @@ Here is a semantic property that arc is supposed to satisfy:
   quantified over: {p['quantifier']['text']}
   code it is anchored in: {', '.join(p['anchors']['files'])}
 
+{prevtxt}
 TASK: produce {n} DIFFERENT realistic changes to arc's non-test source code, each of which BREAKS this property while the repository still compiles and its existing tests still pass (run at least `go build ./...` and `go test -vet=off -count=1` for every package you touched and for packages that obviously depend on the touched behaviour; env: `export GOFLAGS=-mod=mod GOPROXY=off; unset GOSUMDB`). The changes should look like plausible refactors/optimisations/bug-fixes-gone-wrong a maintainer could merge, NOT sabotage that ordinary use would expose at once: each must need something specific to manifest — a particular interleaving, a crash or fault at a particular point, a multi-step sequence of operations, an unusual input, or two cooperating sites that each look fine alone. Make the {n} changes differ in mechanism (different code site or different way of breaking the property). Do not change or delete existing tests; do not add build tags; keep each change small (typically < 40 changed lines).
 
 For each change k = 1..{n} deliver in {wt}-out/:
   m<k>.diff     — `git diff` of the change against HEAD (apply one change at a time: reset the worktree with `git checkout -- . && git clean -fdq` between them),
   m<k>_demo/    — a demonstration that FAILS with the change applied and PASSES without it: preferably a Go test file to be copied into a named package directory of the repository (say which, in m<k>.json) and run with `go test -vet=off -count=1 -run <Name> ./<pkg>/`, or a small main program; it must be deterministic (no flaky timing),
+  (in m<k>.json give demo_cmd as just the `go test ...` command; the evaluator copies the demo file into demo_pkg itself)
   m<k>.json     — {{"property": "{p['id']}", "summary": "...what the change does...", "needs": "...what it needs in order to manifest...", "demo_pkg": "internal/...", "demo_files": ["..."], "demo_cmd": "go test ...", "tests_run": ["..."]}}.
 Verify yourself, for every change: (a) with the diff applied `go build ./...` succeeds and the existing tests of the touched packages pass, (b) the demo fails with the diff and passes on the clean tree. Leave the worktree clean (no diff applied) at the end. The machine is shared and builds are slow (packages linking DuckDB take minutes): be economical with full-repo test runs.
 FINAL REPORT (<= 200 words): for each change, one line on mechanism, what it needs to manifest, and the verification you ran.""")
